@@ -51,6 +51,8 @@ def kw_call_hook(I, st, f, args, kwargs, node):
     requires the keyword task's precondition, ensures empty(result) <=> K_k(d, value, instance, schema)."""
     if not isinstance(f, KwFunc):
         return None
+    from pyvc import interp as _interp
+    _interp.CONTRACTS_USED.add("keyword:" + f.k)
     ctx = I.ctx
     vm = ctx.config["vm"]
     d = vm.d
